@@ -166,6 +166,28 @@ func runC17(c *eng.Ctx) {
 									}
 								}
 							}
+						case *ast.AssignStmt:
+							// the envelope built field by field: inner.Type = "tag"; inner.Expr = …
+							for i, l := range v.Lhs {
+								sel, ok := l.(*ast.SelectorExpr)
+								if !ok || i >= len(v.Rhs) {
+									continue
+								}
+								if cn := namedOf(info.TypeOf(sel.X)); cn != nil && strings.HasPrefix(cn.Obj().Name(), "inner") {
+									mc.carrier = cn
+								}
+								if sel.Sel.Name == "Type" {
+									if s, ok := constString(info, res(v.Rhs[i])); ok {
+										mc.tags = append(mc.tags, s)
+									}
+								}
+							}
+						case *ast.ValueSpec:
+							if v.Type != nil {
+								if cn := namedOf(info.TypeOf(v.Type)); cn != nil && strings.HasPrefix(cn.Obj().Name(), "inner") {
+									mc.carrier = cn
+								}
+							}
 						case *ast.SelectorExpr:
 							if id, ok := res(v.X).(*ast.Ident); ok && id.Name == "e" {
 								mc.reads[v.Sel.Name] = true
@@ -244,20 +266,54 @@ func runC17(c *eng.Ctx) {
 	// ---- Unmarshal table ---------------------------------------------------------------------------------------
 	unm := map[string]string{} // tag -> type name
 	helperFor := map[string]string{}
+	bodyFor := map[string]ast.Node{} // tag -> the dispatch branch that handles it (a case clause or the body of an if)
 	c.Rule("LAYOUT", "sql/stmt.Marshal<->Unmarshal{tags}", func() {
 		if unmarshalDecl == nil {
 			c.Undecided("Unmarshal not found")
 		}
-		// every switch of Unmarshal that dispatches on constant tags (the dispatch may be split into several)
-		var sws []*ast.SwitchStmt
-		ast.Inspect(unmarshalDecl.Body, func(n ast.Node) bool {
-			if s, ok := n.(*ast.SwitchStmt); ok && s.Tag != nil {
-				sws = append(sws, s)
-			}
-			return true
-		})
-		if len(sws) == 0 {
-			c.Undecided("Unmarshal has no switch")
+		// the dispatch on constant tags: switches (possibly several) or chains of `x == "tag"` tests, written in Unmarshal or in an
+		// unexported helper it hands the decoded envelope to
+		type dclause struct {
+			tags []ast.Expr
+			body ast.Node
+		}
+		var dcl []dclause
+		var scan func(body ast.Node, depth int)
+		seenFn := map[string]bool{}
+		scan = func(body ast.Node, depth int) {
+			ast.Inspect(body, func(n ast.Node) bool {
+				switch x := n.(type) {
+				case *ast.SwitchStmt:
+					if x.Tag != nil {
+						for _, st := range x.Body.List {
+							cc := st.(*ast.CaseClause)
+							if len(cc.List) > 0 {
+								dcl = append(dcl, dclause{cc.List, cc})
+							}
+						}
+					}
+				case *ast.IfStmt:
+					if be, ok := x.Cond.(*ast.BinaryExpr); ok && be.Op == token.EQL {
+						for _, side := range []ast.Expr{be.X, be.Y} {
+							if _, isC := constString(info, side); isC {
+								dcl = append(dcl, dclause{[]ast.Expr{side}, x.Body})
+							}
+						}
+					}
+				case *ast.CallExpr:
+					if id, ok := x.Fun.(*ast.Ident); ok && depth < 2 && !ast.IsExported(id.Name) && !seenFn[id.Name] {
+						if hd := funcDecl(pk, id.Name, ""); hd != nil && hd.Body != nil {
+							seenFn[id.Name] = true
+							scan(hd.Body, depth+1)
+						}
+					}
+				}
+				return true
+			})
+		}
+		scan(unmarshalDecl.Body, 0)
+		if len(dcl) == 0 {
+			c.Undecided("Unmarshal has no dispatch on constant tags")
 		}
 		resultType := func(n ast.Node) string {
 			t := ""
@@ -271,19 +327,15 @@ func runC17(c *eng.Ctx) {
 			})
 			return t
 		}
-		var clauses []*ast.CaseClause
-		for _, sw := range sws {
-			for _, st := range sw.Body.List {
-				clauses = append(clauses, st.(*ast.CaseClause))
-			}
-		}
-		for _, cc := range clauses {
-			for _, te := range cc.List {
+		for _, dc := range dcl {
+			cc := dc.body
+			for _, te := range dc.tags {
 				tag, ok := constString(info, te)
 				if !ok {
 					c.Check(false, "const-tag", nil, nil, "Unmarshal dispatches on constant tags", "non-constant case")
 					continue
 				}
+				bodyFor[tag] = cc
 				t := resultType(cc)
 				if t == "" {
 					// helper call
@@ -374,18 +426,9 @@ func runC17(c *eng.Ctx) {
 				if hd := funcDecl(pk, h, ""); hd != nil {
 					body = hd.Body
 				}
-			} else if unmarshalDecl != nil {
-				// inline case in Unmarshal
-				ast.Inspect(unmarshalDecl.Body, func(x ast.Node) bool {
-					if cc, ok := x.(*ast.CaseClause); ok {
-						for _, te := range cc.List {
-							if s, ok := constString(info, te); ok && s == tag {
-								body = cc
-							}
-						}
-					}
-					return true
-				})
+			} else if b, ok := bodyFor[tag]; ok {
+				// handled in the dispatch branch itself
+				body = b
 			}
 			if body != nil {
 				ast.Inspect(body, func(x ast.Node) bool {
